@@ -189,6 +189,6 @@ def cosim(ctx, native):
         for opn, want in (("lt", X < Y), ("le", X <= Y), ("gt", X > Y), ("ge", X >= Y), ("ne", X != Y), ("eq", X == Y)):
             got = parse_native(native["dev"].ask("5 bin %s vv %s %s" % (opn, fmt_dec(x, p), fmt_dec(y, q))))
             if got != ("BOOL", want):
-                raise RuntimeError("native %s of %s, %s gives %r" % (opn, (x, p), (y, q), got))
+                raise NativeViolation("5 bin %s vv %s %s" % (opn, fmt_dec(x, p), fmt_dec(y, q)), got, ("BOOL", want))
         n += 1
     return n
